@@ -89,7 +89,7 @@ def w_gain(ctx, rng, i):
     noise = bool(rng.integers(3))
     dtype = ["complex", "complex", "float"][int(rng.integers(3))]
     shape = (2, n) if n_pol == 2 else (n,)
-    amp = float(10 ** rng.uniform(-5, -1))
+    amp = float(10 ** rng.uniform(-5, -1)) if rng.integers(8) else float(10 ** rng.choice([-13.0, -9.0, 1.0]))
 
     def arr(scale):
         a = rng.normal(0, 1, shape) * scale
